@@ -302,7 +302,7 @@ struct E1 : Engine {
 		static const char *methods[] = {"GET","GET","POST","POST","PUT","DELETE","OPTIONS","X-Custom.Method"};
 		std::string m = methods[r.below(8)]; q["method"] = m; q["script"] = async_mount ? "/a" : "/s";
 		bool filt = async_mount && (m == "POST" || m == "PUT") && (prop == "C12" || prop == "C02") && r.below(3) == 0; if(filt) q["script"] = "/f";
-		std::string path = filt && r.below(2) ? "/echomp" : "/echo"; if(path == "/echomp" && r.below(2)) path += (char)('1' + r.below(3));   // the digit selects what the multipart filter does with the parts (reads them / sniffs them) int ns = r.below(4); for(int i=0;i<ns;i++){ path += "/"; unsigned x = r.below(8); if(x == 0) path += ""; else if(x == 1) path += r.below(2) ? "%41b%2Fc" : "%4ab%2fc%e2%82%Ac"; else if(x == 2) path += "a%20b"; else if(x == 3) path += "."; else path += rnd_token(r,1,8); }
+		std::string path = filt && r.below(2) ? "/echomp" : "/echo"; if(path == "/echomp" && r.below(2)) path += (char)('1' + r.below(3));   // the digit selects what the multipart filter does with the parts (reads them / sniffs them) int ns = r.below(4); for(int i=0;i<ns;i++){ path += "/"; unsigned x = r.below(8); if(x == 0) path += ""; else if(x == 1) path += r.below(2) ? "%41b%2Fc" : "%4ab%2fc%e2%82%Ac"; else if(x == 2) path += r.below(3) ? "a%20b" : "a%20sb%25n%25s%20s";   /* what a printf-style formatter must never see as its format */ else if(x == 3) path += "."; else path += rnd_token(r,1,8); }
 		q["path"] = path;
 		if(r.below(3) == 0){ static const char *hosts[] = {"internal.example","internal.example","internal.example:8080","xinternal.example","internal.example.evil","internal.example:80x","other.example:8080"}; q["host"] = hosts[r.below(7)]; }   // an application is mounted for the host internal.example(:port) only: every request of a kept-alive connection is dispatched by its own Host
 		if(r.below(4) == 0) q["host_last"] = 1;
@@ -375,6 +375,7 @@ struct E1 : Engine {
 		static const int bufs[] = {1,7,64,1024,16384,65536};
 		J cfg = J::obj(); cfg["reactor"] = (int)r.below(3); cfg["worker_threads"] = 1 + (int)r.below(3);
 		cfg["output_buffer_size"] = bufs[r.below(6)]; cfg["async_output_buffer_size"] = bufs[r.below(6)]; cfg["input_buffer_size"] = bufs[r.below(6)];
+		cfg["syslog"] = r.below(6) == 0 ? 1 + (int)r.below(2) : 0;
 		cfg["gzip"] = (int)r.below(2); cfg["gzip_level"] = (int)r.below(10) - 1; cfg["gzip_buffer"] = r.below(2) ? 0 : bufs[1 + r.below(5)];
 		cfg["http_timeout"] = 10 + (int)r.below(20); gen_limit() = 0; if(prop == "C12" && r.below(2)){ static const int lk[] = {1,4,16,64,2048}; cfg["content_limit_kb"] = lk[r.below(5)]; cfg["multipart_limit_kb"] = std::max<int>(lk[r.below(5)],(int)cfg.geti("content_limit_kb")*2); gen_limit() = (size_t)cfg.geti("content_limit_kb") * 1024; } { static const int fm[] = {0,1,100,4096,131072}; cfg["file_in_memory_limit"] = fm[r.below(5)]; }
 		p["cfg"] = cfg;
@@ -583,6 +584,7 @@ struct E1 : Engine {
 			v["gzip"]["enable"] = (bool)cfg.geti("gzip"); if(cfg.geti("gzip_level",-1) >= 0) v["gzip"]["level"] = (int)std::min<int64_t>(cfg.geti("gzip_level"),9); if(cfg.geti("gzip_buffer") > 0) v["gzip"]["buffer"] = (int)cfg.geti("gzip_buffer");
 			v["cache"]["backend"] = "thread_shared"; v["cache"]["limit"] = 16;
 			v["localization"]["locales"][0] = "C"; v["localization"]["backend"] = "std"; v["logging"]["stderr"] = false; v["logging"]["level"] = "error";
+			if(cfg.geti("syslog")){ v["logging"]["syslog"]["enable"] = true; v["logging"]["syslog"]["id"] = "verif"; v["logging"]["level"] = cfg.geti("syslog") == 2 ? "info" : "error"; }   // the syslog sink formats every record (at level info: one per HTTP request, carrying the peer's request line); there is no /dev/log here, the datagram goes nowhere
 			v["security"]["content_length_limit"] = 2048; v["security"]["multipart_form_data_limit"] = 2048; v["security"]["display_error_message"] = false;
 			{ char pb[16]; snprintf(pb,sizeof(pb),"%07d",(int)getpid()); upload_dir = runner::g_scratch + "/up" + pb; }   /* fixed length, see runner.h */ mkdir(upload_dir.c_str(),0700);
 			v["security"]["uploads_path"] = upload_dir; aw.save_dir = upload_dir + ".saved"; mkdir(aw.save_dir.c_str(),0700);
